@@ -18,6 +18,7 @@ import (
 	"math/rand"
 	"net"
 	"os"
+	"runtime"
 	"sync"
 	"time"
 
@@ -616,6 +617,82 @@ func wsRunCase(env *wsEnv, rng *rand.Rand, prefix string, pks []wsPkt, msgs []ws
 	return sx.L{wsMsgList(msgs), sx.B(tcpIn), wsMsgList(outWS), sx.B(outTCP), sx.B(obsWS), sx.B(obsTCP), sx.Bool(ended)}, nil
 }
 
+// wsPoison: a websocket connection that ENDS while the broker is partway through a binary message.
+// One message: CONNECT, DISCONNECT, a filler PUBLISH up to byte `cut` (2048 = the broker's read
+// buffer: the first wsConn.Read stops exactly there), then a tail the broker never gets to because
+// it closes the connection on the DISCONNECT.  tail variants: 0 garbage, 1 whole PUBLISH packets to
+// the next case's observed topic, 2 a foreign CONNECT followed by such PUBLISHes.
+func wsPoison(env *wsEnv, rng *rand.Rand, name, victimPrefix string, variant int) ([]wsMsg, error) {
+	blob := append(wsConnect(4, name), 0xe0, 0)
+	cut := 2048
+	if variant == 0 && rng.Intn(2) == 0 {
+		cut = 2048 + rng.Intn(40) - 20
+	}
+	rl := cut - len(blob) - 3
+	fill := append(wsStr("c39/fill"), make([]byte, rl-10)...)
+	blob = append(blob, wsMk(0x30, fill)...)
+	pub := func() []byte {
+		b := wsStr(fmt.Sprintf("c39/%s/%c", victimPrefix, 'a'+rune(rng.Intn(3))))
+		return wsMk(0x30, append(b, []byte("foreign")...))
+	}
+	switch variant {
+	case 0:
+		g := make([]byte, 200+rng.Intn(1200))
+		rng.Read(g)
+		blob = append(blob, g...)
+	case 1:
+		for i := 0; i < 4+rng.Intn(40); i++ {
+			blob = append(blob, pub()...)
+		}
+	default:
+		blob = append(blob, wsConnect(4, "foreign"+name)...)
+		for i := 0; i < 4+rng.Intn(40); i++ {
+			blob = append(blob, pub()...)
+		}
+	}
+	d := websocket.Dialer{Subprotocols: []string{"mqtt"}, HandshakeTimeout: 2 * time.Second, WriteBufferSize: len(blob) + 64}
+	c, _, err := d.Dial(env.wsURL, nil)
+	if err != nil {
+		return nil, err
+	}
+	msgs := []wsMsg{{2, blob}}
+	if err := c.WriteMessage(websocket.BinaryMessage, blob); err == nil {
+		_ = c.SetReadDeadline(time.Now().Add(2 * time.Second))
+		for { // CONNACK, then the broker ends the connection
+			if _, _, err := c.ReadMessage(); err != nil {
+				break
+			}
+		}
+	}
+	_ = c.Close()
+	time.Sleep(3 * time.Millisecond) // let the listener's handler return
+	return msgs, nil
+}
+
+// wsAfterPoison: k connections ending mid-message, then an ordinary session compared with TCP as
+// always.  case = (6 history msgs tcp_in out_ws out_tcp obs_ws obs_tcp ended); history = the
+// messages of the earlier connections.  oneP: the whole history runs with GOMAXPROCS(1), so that a
+// per-P cache between connections (sync.Pool) would hand the next connection what the last left.
+func wsAfterPoison(env *wsEnv, rng *rand.Rand, idx, k, variant, mode int, oneP bool) (sx.V, error) {
+	if oneP {
+		defer runtime.GOMAXPROCS(runtime.GOMAXPROCS(1))
+	}
+	victim := fmt.Sprintf("%05x", idx)
+	hist := sx.L{}
+	for i := 0; i < k; i++ {
+		m, err := wsPoison(env, rng, fmt.Sprintf("psn%s%d", victim, i), victim, variant)
+		if err != nil {
+			return nil, err
+		}
+		hist = append(hist, wsMsgList(m))
+	}
+	c, err := wsCase(env, rng, idx, mode, false)
+	if err != nil {
+		return nil, err
+	}
+	return append(sx.L{sx.N(6), hist}, c.(sx.L)...), nil
+}
+
 func engWs(seed int64, tier string, _ []string, out *sx.Out) {
 	rng := rand.New(rand.NewSource(seed))
 	env, err := wsSetup()
@@ -655,6 +732,25 @@ func engWs(seed int64, tier string, _ []string, out *sx.Out) {
 			os.Exit(3)
 		}
 		out.Case(c)
+	}
+	// histories of several connections: earlier ones end mid-message, the next one must be unaffected
+	poisoned := func(k, variant, mode int, oneP bool) {
+		idx++
+		c, err := wsAfterPoison(env, rng, idx, k, variant, mode, oneP)
+		if err != nil {
+			fmt.Fprintln(os.Stderr, "ws history case:", err)
+			os.Exit(3)
+		}
+		out.Case(c)
+	}
+	for variant := 0; variant < 3; variant++ {
+		poisoned(3, variant, []int{0, 3, 4}[variant], true)
+		poisoned(4+variant, variant, 1, false)
+	}
+	if tier == "thorough" {
+		for i := 0; i < 60; i++ {
+			poisoned(1+rng.Intn(6), rng.Intn(3), []int{0, 1, 3, 4}[rng.Intn(4)], i%2 == 0)
+		}
 	}
 	big(65535, false, false, 65535+1024)
 	big(65536, true, false, 0)
